@@ -143,16 +143,10 @@ def csrRowNorm2Sqr [Zero α] [Add α] [Mul α] (A : Csr α) : List α := (csrRow
 def csrRowNorm2 [Zero α] [Add α] [Mul α] (sqrt : α → α) (A : Csr α) : List α :=
   (csrRows A).map fun r => sqrt (rowNormSq r)
 
-/-- `Arch::RowNorm::csr_generic_scaled_norm2sqr`: `norm += scal[row] * Math::sqr(val[col])`
-    (as coded: the scaling factor is indexed by the *row*) -/
+/-- `Arch::RowNorm::csr_generic_scaled_norm2sqr`: `norm += scal[col_ind[col]] * Math::sqr(val[col])`
+    (the documented `row_norms_i = Σ_j scal_j (this_ij)^2`; since the fix of c03-edge:F2 the scaling factor is indexed
+    by the *column*, as in the BCSR kernel) -/
 def csrRowNorm2SqrScaled [Zero α] [Add α] [Mul α] (A : Csr α) (scal : Array α) : List α :=
-  (List.range A.rows).map fun row => (csrRow A row).foldl (fun s p => s + scal.getD row 0 * (p.2 * p.2)) 0
-
-/-- SPECIFICATION side of the scaled row norm (the documented formula `row_norms_i = Σ_j scal_j (this_ij)^2`, which is
-    also what the BCSR kernel computes): the scaling factor is indexed by the *column*.  The code as it is
-    (`csrRowNorm2SqrScaled`) differs (KNOWN_FINDINGS c03-edge:F2); once /repo is fixed, `csrRowNorm2SqrScaled := ...Spec`
-    is the one-line model change. -/
-def csrRowNorm2SqrScaledSpec [Zero α] [Add α] [Mul α] (A : Csr α) (scal : Array α) : List α :=
   (List.range A.rows).map fun row => (csrRow A row).foldl (fun s p => s + scal.getD p.1 0 * (p.2 * p.2)) 0
 
 /-- `SparseMatrixCSR::norm_frobenius` = `Arch::Norm2::value(val, used_elements)` -/
@@ -275,17 +269,9 @@ def bcsrRowNorm2Sqr [Zero α] [Add α] [Mul α] (A : Bcsr α) (scal : Option (Ar
       | none => s + v * v
       | some sc => s + sc.getD (A.bw * p.1 + j) 0 * (v * v)) s) 0
 
-/-- `RowNorm::bcsr_generic_norm2` exactly as coded: the square root is taken *inside* the loop over the blocks of
-    the row, after the contributions of each block have been added -/
+/-- `RowNorm::bcsr_generic_norm2`: the loop of `bcsr_generic_norm2sqr`, then one square root per scalar row (since the
+    fix of c03-edge:F1 the root is taken after all blocks of the row have been added up) -/
 def bcsrRowNorm2 [Zero α] [Add α] [Mul α] (sqrt : α → α) (A : Bcsr α) : List α :=
-  (List.range A.rows).flatMap fun row => (List.range A.bh).map fun i =>
-    (bcsrRow A row).foldl (fun s p =>
-      sqrt ((List.range A.bw).foldl (fun s j => s + p.2.getD (i * A.bw + j) 0 * p.2.getD (i * A.bw + j) 0) s)) 0
-
-/-- SPECIFICATION side of `SparseMatrixBCSR::row_norm2`: the square root of `row_norm2sqr`, taken once per scalar row.
-    The code as it is (`bcsrRowNorm2`) differs on block rows with ≥ 2 blocks (KNOWN_FINDINGS c03-edge:F1); once /repo
-    is fixed, `bcsrRowNorm2 := bcsrRowNorm2Spec` is the one-line model change. -/
-def bcsrRowNorm2Spec [Zero α] [Add α] [Mul α] (sqrt : α → α) (A : Bcsr α) : List α :=
   (bcsrRowNorm2Sqr A none).map sqrt
 
 def bcsrFrobSq [Zero α] [Add α] [Mul α] (A : Bcsr α) : α := sumSq A.val.toList
